@@ -260,14 +260,17 @@ Proof.
   destruct (s_anc s && negb (in_range rg (s_beacon s))) eqn:E1; cbn [snd]; [intros H; left; exact H|].
   destruct (negb (s_allow_override s) && _) eqn:E2; cbn [snd]; [intros H; left; exact H|].
   set (expected := expected_set (s_init s) (s_beacon s) (s_anc s)).
-  assert (Himm : forall f1 ok1, run_imm (range_numbers rg) (s_imm s) (s_init s) = (ok1, f1) ->
+  set (ns := if tasks_run s then range_numbers rg else []).
+  assert (Hns : forall n, In n ns -> in_range rg n = true).
+  { intros n Hn. unfold ns in Hn. destruct (tasks_run s); [apply range_numbers_In; exact Hn | destruct Hn]. }
+  assert (Himm : forall f1 ok1, run_imm ns (s_imm s) (s_init s) = (ok1, f1) ->
             uniq f1 /\ forall x, In x f1 -> In x (s_init s) \/
               exists n a, in_range rg n = true /\ In (Some a) (locs_of (s_imm s) n) /\ from_archive [] a x).
   { intros f1 ok1 Hr. split.
-    - assert (H := run_imm_uniq (range_numbers rg) (s_imm s) (s_init s) Hu). rewrite Hr in H. exact H.
-    - intros x Hx. assert (H := run_imm_in (range_numbers rg) (s_imm s) (s_init s) x). rewrite Hr in H.
+    - assert (H := run_imm_uniq ns (s_imm s) (s_init s) Hu). rewrite Hr in H. exact H.
+    - intros x Hx. assert (H := run_imm_in ns (s_imm s) (s_init s) x). rewrite Hr in H.
       apply H in Hx as [Hx|(n & a & H1 & H2 & H3)]; [left; exact Hx|]. right. exists n, a.
-      split; [apply range_numbers_In; exact H1 | auto]. }
+      split; [apply Hns; exact H1 | auto]. }
   assert (Hfin : forall ok2 f2,
      (forall x, In x f2 -> In x (s_init s) \/
         (exists n a, in_range rg n = true /\ In (Some a) (locs_of (s_imm s) n) /\ from_archive [] a x) \/
@@ -297,24 +300,71 @@ Proof.
   destruct (s_anc s) eqn:Ea; destruct (s_vk s) as [vk|] eqn:Ek; cbn [snd]; try (intros H; left; exact H).
   - (* ancillary included, key present *)
 
-    destruct (run_imm (range_numbers rg) (s_imm s) (s_init s)) as [ok1 f1] eqn:Eri.
-    destruct (Himm f1 ok1 eq_refl) as [Hu1 Hsrc1].
-    destruct ok1.
+    destruct (run_imm ns (s_imm s) (s_init s)) as [ok1 f1] eqn:Eri.
+    destruct (Himm f1 ok1 eq_refl) as [Hu1 Hsrc1]. cbn [andb].
+    destruct ok1; [destruct (tasks_run s)|].
     + destruct (anc_task vk (s_tbl s) (s_anc_locs s) f1) as [ok2 f2] eqn:Eat.
       apply (Hfin ok2 f2). intros x Hx.
       assert (H := anc_task_in vk (s_tbl s) (s_anc_locs s) f1 x Hu1 Ht). rewrite Eat in H. cbn [fst snd] in H.
       apply H in Hx as [Hx|(Hok & id & m & Hid & Hv)].
       * apply Hsrc1 in Hx as [Hx|Hx]; auto.
       * right. right. split; [exact Hok|]. split; [reflexivity|]. exists vk, id, m. auto.
+    + apply (Hfin true f1). intros x Hx. apply Hsrc1 in Hx as [Hx|Hx]; auto.
     + apply (Hfin false f1). intros x Hx. apply Hsrc1 in Hx as [Hx|Hx]; auto.
   - (* no ancillary, key present *)
 
-    destruct (run_imm (range_numbers rg) (s_imm s) (s_init s)) as [ok1 f1] eqn:Eri.
-    destruct (Himm f1 ok1 eq_refl) as [Hu1 Hsrc1].
+    destruct (run_imm ns (s_imm s) (s_init s)) as [ok1 f1] eqn:Eri.
+    destruct (Himm f1 ok1 eq_refl) as [Hu1 Hsrc1]. cbn [andb].
     destruct ok1; [apply (Hfin true f1) | apply (Hfin false f1)]; intros x Hx; apply Hsrc1 in Hx as [Hx|Hx]; auto.
   - (* no ancillary, no key *)
 
-    destruct (run_imm (range_numbers rg) (s_imm s) (s_init s)) as [ok1 f1] eqn:Eri.
-    destruct (Himm f1 ok1 eq_refl) as [Hu1 Hsrc1].
+    destruct (run_imm ns (s_imm s) (s_init s)) as [ok1 f1] eqn:Eri.
+    destruct (Himm f1 ok1 eq_refl) as [Hu1 Hsrc1]. cbn [andb].
     destruct ok1; [apply (Hfin true f1) | apply (Hfin false f1)]; intros x Hx; apply Hsrc1 in Hx as [Hx|Hx]; auto.
+Qed.
+
+(* ---------- the manifest hash: what the back-to-back concatenation still determines ---------- *)
+Definition plain_key (k : path) : Prop := k <> [] /\ forall x, In x k -> x < 256.
+Definition plain_data (d : list (path * bt)) : Prop :=
+  forall e, In e d -> plain_key (fst e) /\ exists c, snd e = file_digest c.
+Definition alt (d : list (path * bt)) : list bt := flat_map (fun e => [BLit (fst e); snd e]) d.
+
+Lemma key_stream_plain k cur : (forall x, In x k -> x < 256) -> key_stream k cur = [BLit (rev cur ++ k)].
+Proof.
+  revert cur; induction k as [|a k IH]; intros cur H; cbn [key_stream].
+  - rewrite app_nil_r. reflexivity.
+  - assert (Ha : a <? 256 = true) by (apply N.ltb_lt; apply H; left; reflexivity). rewrite Ha.
+    rewrite IH by (intros x Hx; apply H; right; exact Hx). cbn [rev]. rewrite <- app_assoc. reflexivity.
+Qed.
+
+Lemma stream_plain d : plain_data d ->
+  flat_map (fun e => key_stream (fst e) [] ++ [snd e]) d = alt d.
+Proof.
+  induction d as [|e d IH]; intros H; [reflexivity|]. cbn [flat_map alt].
+  destruct (H e (or_introl eq_refl)) as [[_ Hk] _]. rewrite (key_stream_plain (fst e) [] Hk). cbn [rev app].
+  fold (alt d). rewrite IH by (intros x Hx; apply H; right; exact Hx). reflexivity.
+Qed.
+
+Lemma merge_alt d : plain_data d -> merge_lits (alt d) = alt d.
+Proof.
+  induction d as [|e d IH]; intros H; [reflexivity|].
+  destruct (H e (or_introl eq_refl)) as [[Hne _] [c Hc]]. destruct e as [k v]. cbn [fst snd] in *. subst v.
+  assert (IH' := IH (fun x Hx => H x (or_intror Hx))).
+  unfold alt. cbn [flat_map app fst snd]. fold (alt d). unfold file_digest.
+  cbn [merge_lits]. rewrite IH'. destruct k as [|x k]; [congruence | reflexivity].
+Qed.
+
+Lemma alt_inj d1 d2 : alt d1 = alt d2 -> d1 = d2.
+Proof.
+  revert d2; induction d1 as [|[k1 v1] d1 IH]; intros [|[k2 v2] d2] H; try reflexivity; try discriminate.
+  unfold alt in H. cbn [flat_map app fst snd] in H. injection H as Hk Hv Hr. subst. f_equal. apply IH. exact Hr.
+Qed.
+
+Lemma manifest_hash_injective_plain m1 m2 :
+  plain_data (m_data m1) -> plain_data (m_data m2) ->
+  manifest_hash m1 = manifest_hash m2 -> m_data m1 = m_data m2.
+Proof.
+  intros H1 H2 H. unfold manifest_hash, manifest_stream in H. injection H as H.
+  rewrite (stream_plain _ H1), (stream_plain _ H2), (merge_alt _ H1), (merge_alt _ H2) in H.
+  apply alt_inj. exact H.
 Qed.
